@@ -375,7 +375,7 @@ func init() {
 	engine.Register(engine.Spec[Case]{
 		ID:    "C04",
 		Level: "exploration",
-		Rule: "26 program situations (clean; INFO / WARNING / ERROR only and combined; ERROR silenced by each ignore form; syntax error in main, in an included module at root and statement level, in an included module followed / preceded by a module that parses, in a nested include; missing include; include cycle; error / warning inside an included module; statement-only snippets with and without @scope, with a lint error, with a syntax error; empty file) x .falco.yml rule overrides (none; every rule that fires x {ERROR, WARNING, INFO, IGNORE} in both letter cases; all pairs of levels for two fired rules; an unrelated rule), each run through the real `falco lint` binary in a private directory under all 6 combinations {plain, -json} x {default, -v, -vv} and with -generated (plain and -json); oracles: (a) exit status and counts equal the verdict computed through the library (parser + linter + override map), (b) exit status and counts identical across the 6 combinations, (c) the -json document agrees with the summary line. non-trivial = every cell; distinct = distinct (program, overrides) Round 3: 10 situations with literals at and beyond the range of their type (FLOAT / INTEGER / RTIME, main file and module). Round 4: 8 situations with a single surplus token in front of the end of the main file or of a module, a file that is one token; situations named syntax-error-* have a verdict by construction (non-zero exit in every mode), whatever the parser under test answers.",
+		Rule: "44 program situations (26 basic ones, 10 with out-of-range literals, 8 with a surplus token at the end of a file; the basic ones: clean; INFO / WARNING / ERROR only and combined; ERROR silenced by each ignore form; syntax error in main, in an included module at root and statement level, in an included module followed / preceded by a module that parses, in a nested include; missing include; include cycle; error / warning inside an included module; statement-only snippets with and without @scope, with a lint error, with a syntax error; empty file) x .falco.yml rule overrides (none; every rule that fires x {ERROR, WARNING, INFO, IGNORE} in both letter cases; all pairs of levels for two fired rules; an unrelated rule), each run through the real `falco lint` binary in a private directory under all 6 combinations {plain, -json} x {default, -v, -vv} and with -generated (plain and -json); oracles: (a) exit status and counts equal the verdict computed through the library (parser + linter + override map), (b) exit status and counts identical across the 6 combinations, (c) the -json document agrees with the summary line. non-trivial = every cell; distinct = distinct (program, overrides) Round 3: 10 situations with literals at and beyond the range of their type (FLOAT / INTEGER / RTIME, main file and module). Round 4: 8 situations with a single surplus token in front of the end of the main file or of a module, a file that is one token; situations named syntax-error-* have a verdict by construction (non-zero exit in every mode), whatever the parser under test answers.",
 		Gen:  gen04,
 		Key: func(c Case) string {
 			ks := make([]string, 0, len(c.Overrides))
